@@ -16,7 +16,9 @@ from common import substream, sha1, run_eval
 PROPERTY = "C07"
 LEVEL = "fault_enumeration"
 
-FORMS = ("throw_str", "throw_obj", "throw_err", "null_prop", "call_nonfn", "undef_ident", "null_prop_mid")
+FORMS = ("throw_str", "throw_obj", "throw_err", "null_prop", "call_nonfn", "undef_ident", "null_prop_mid",
+         # errors raised by built-ins
+         "json_parse", "regexp_ctor", "match_bad_pattern", "reduce_empty")
 LOOPS = ("for", "while", "dowhile", "forin", "forof")
 NATIVES = ("forEach", "map", "filter", "some", "every", "find", "findIndex", "reduce", "sort",
            "getter", "setter", "valueOf", "call", "apply", "bind")
@@ -28,6 +30,8 @@ PRELUDE = (
     "function desc(e){ if (typeof e === 'string') return 's:'+e;"
     " if (e instanceof TypeError) return 'TypeError|'+e.name+'|'+(e instanceof Error);"
     " if (e instanceof ReferenceError) return 'ReferenceError|'+e.name+'|'+(e instanceof Error);"
+    " if (e instanceof SyntaxError) return 'SyntaxError|'+e.name+'|'+(e instanceof Error);"
+    " if (e instanceof RangeError) return 'RangeError|'+e.name+'|'+(e instanceof Error);"
     " if (e instanceof Error) return 'Error|'+e.message;"
     " if (e && typeof e === 'object' && e.tag !== undefined) return 'obj:'+e.tag;"
     " return 'other:'+(typeof e); }\n"
@@ -209,6 +213,14 @@ def _thr(form, k):
         return "(d(%d) ? 1 : F)();" % k
     if form == "undef_ident":
         return "if (d(%d)) undef_ident_%d;" % (k, k)
+    if form == "json_parse":
+        return "if (d(%d)) JSON.parse('{bad');" % k
+    if form == "regexp_ctor":
+        return "if (d(%d)) new RegExp('(');" % k
+    if form == "match_bad_pattern":
+        return "if (d(%d)) 'abc'.match('[');" % k
+    if form == "reduce_empty":
+        return "if (d(%d)) [].reduce(function(a,b){ return a; });" % k
     if form == "null_prop_mid":
         # the TypeError is raised in mid-expression, with operands of enclosing expressions pending
         return "pv(%d, id2(4, 5 + [3, (d(%d) ? null : O).x][1]));" % (k, k)
@@ -362,6 +374,10 @@ class Model:
                 raise JSThrow("TypeError|TypeError|true", None)
             if form == "undef_ident":
                 raise JSThrow("ReferenceError|ReferenceError|true", "undef_ident_%d" % k)
+            if form in ("json_parse", "regexp_ctor", "match_bad_pattern"):
+                raise JSThrow("SyntaxError|SyntaxError|true", None)
+            if form == "reduce_empty":
+                raise JSThrow("TypeError|TypeError|true", None)
 
     def block(self, stmts, env):
         for s in stmts:
@@ -642,7 +658,7 @@ def compare(mo, en, prog):
     if en["kind"] in ("cap", "limit_time", "limit_mem"):
         v.append({"clause": "C07.log", "detail": "program did not finish (%s); model expects %d log entries" % (en["kind"], len(mlog))})
         return v
-    if en["kind"] == "js_syntax":
+    if en["kind"] == "js_syntax" and not (mo["outcome"][0] == "uncaught" and mo["outcome"][1].startswith("SyntaxError")):
         v.append({"clause": "C07.log", "detail": "program rejected or failed to compile: %s" % en["msg"]})
         return v
     if mlog != elog:
@@ -666,12 +682,12 @@ def compare(mo, en, prog):
         if not (en["kind"] == "value" and en["value"] == "end"):
             v.append({"clause": "C07.log", "detail": "model completes normally, engine ended in %s %s: %s" % (en["kind"], en["cls"], en["msg"])})
     else:
-        if en["kind"] != "js_error":
+        if en["kind"] not in ("js_error", "js_syntax"):
             v.append({"clause": "C07.uncaught", "detail": "uncaught %s must make eval raise JSError; engine ended in %s %r" % (
                 mo["outcome"][1], en["kind"], en.get("value"))})
         else:
             text = mo["outcome"][2]
-            if en["cls"] not in ("JSError",):
+            if en["cls"] not in ("JSError", "JSSyntaxError", "JSTypeError", "JSReferenceError", "JSRangeError"):
                 v.append({"clause": "C07.uncaught", "detail": "uncaught %s raised %s instead of JSError" % (mo["outcome"][1], en["cls"])})
             elif text and text not in (en["msg"] or ""):
                 v.append({"clause": "C07.uncaught", "detail": "JSError message %r does not describe the thrown value %r" % (en["msg"], text)})
